@@ -87,9 +87,9 @@ func Index(collection, key cty.Value, srcRange *Range) (cty.Value, Diagnostics) 
 		has, _ := collection.HasIndex(key).Unmark()
 		if !has.IsKnown() {
 			if ty.IsTupleType() {
-				return cty.DynamicVal.WithSameMarks(collection), nil
+				return cty.DynamicVal.WithSameMarks(collection, key), nil
 			} else {
-				return cty.UnknownVal(ty.ElementType()).WithSameMarks(collection), nil
+				return cty.UnknownVal(ty.ElementType()).WithSameMarks(collection, key), nil
 			}
 		}
 		if has.False() {
